@@ -286,16 +286,24 @@ impl World {
                 std::fs::write(&p, b"#!/nonexistent/interpreter\n").map_err(|e| e.to_string())?;
                 std::fs::set_permissions(&p, std::fs::Permissions::from_mode(0o755)).map_err(|e| e.to_string())?;
             } else if cf.exec {
-                std::os::unix::fs::symlink(&helper, &p).map_err(|e| e.to_string())?;
+                // one file may serve several targets (a shared script named in their `definitions`)
+                if std::fs::symlink_metadata(&p).is_err() {
+                    std::os::unix::fs::symlink(&helper, &p).map_err(|e| e.to_string())?;
+                }
             } else {
                 std::fs::write(&p, b"#!/bin/false\n").map_err(|e| e.to_string())?;
                 std::fs::set_permissions(&p, std::fs::Permissions::from_mode(0o644))
                     .map_err(|e| e.to_string())?;
             }
-            w.argv0_map.insert(
-                p.as_os_str().as_bytes().to_vec(),
-                (cf.target.clone(), cf.command.clone()),
-            );
+            let key = p.as_os_str().as_bytes().to_vec();
+            if let Some((t0, _)) = w.argv0_map.get(&key) {
+                if *t0 != cf.target {
+                    // shared by several targets: the working directory of the process tells whose it is
+                    w.argv0_map.insert(key, ("*".to_string(), cf.command.clone()));
+                    continue;
+                }
+            }
+            w.argv0_map.insert(key, (cf.target.clone(), cf.command.clone()));
         }
         for (rel, content) in &spec.files {
             w.write_file(rel, content)?;
